@@ -102,26 +102,37 @@ class ExternalOptimizer(Optimizer):
                 answer: str | list[Any] | dict[str, Any] | None = None
                 exception: BaseException | None = None
 
-                while process.poll() is None:
-                    if answer is None:
-                        try:
-                            answer = self._handle_request(comm, initial_values)
-                        except BaseException as exc:  # noqa: BLE001
-                            # Store the exception, we first need to send the 'abort' signal:
-                            exception = exc
-                            answer = "abort"
+                try:
+                    while process.poll() is None:
+                        if answer is None:
+                            try:
+                                answer = self._handle_request(comm, initial_values)
+                            except BaseException as exc:  # noqa: BLE001
+                                # Store the exception, we first need to send the 'abort' signal:
+                                exception = exc
+                                answer = "abort"
 
-                    if answer is not None and comm.write(answer):
-                        answer = None
-                        # If the message has been sent, then reraise any exceptions:
-                        if exception is not None:
-                            # The process should have aborted:
-                            with contextlib.suppress(ProcessLookupError):
-                                os.kill(self._process_pid, signal.SIGTERM)
-                            with contextlib.suppress(subprocess.TimeoutExpired):
-                                process.wait(_PROCESS_TIMEOUT)
-                            raise exception
-                    time.sleep(0.1)
+                        if answer is not None and comm.write(answer):
+                            answer = None
+                            # If the message has been sent, then reraise any exceptions:
+                            if exception is not None:
+                                # The process should have aborted:
+                                with contextlib.suppress(ProcessLookupError):
+                                    os.kill(self._process_pid, signal.SIGTERM)
+                                with contextlib.suppress(subprocess.TimeoutExpired):
+                                    process.wait(_PROCESS_TIMEOUT)
+                                raise exception
+                        time.sleep(0.1)
+                finally:
+                    # Whatever ended the loop (also an exception raised while
+                    # sending an answer), the process must not be left behind:
+                    if process.poll() is None:
+                        process.terminate()
+                        try:
+                            process.wait(_PROCESS_TIMEOUT)
+                        except subprocess.TimeoutExpired:
+                            process.kill()
+                            process.wait()
 
                 # The process has terminated by itself. After a normal run or
                 # an abort its exit code is zero, anything else is an error:
